@@ -27,6 +27,12 @@ impl ErrorCode {
 //@end
 }
 impl EncodeAttributeValue for ErrorCode {
+    open spec fn post_wire(&self, enc: Seq<u8>, val: Seq<u8>) -> Seq<u8> { val }
+    open spec fn post_ok(&self, enc: Seq<u8>, val: Seq<u8>) -> bool { true }
+    // the provided method of the trait (nothing to do after the length is known), as instantiated for this kind
+//@item stun_rs :: mod attributes > trait EncodeAttributeValue > fn post_encode
+//@tags C02 C14 C01
+//@end
     open spec fn wire(&self, enc: Seq<u8>) -> Seq<u8> { error_code_wire(self.0.code() as int, self.0.reason_chars()) }
     // the reason phrase is at most 509 bytes on the wire
     open spec fn encodable(&self, enc: Seq<u8>) -> bool { vstd::utf8::encode_utf8(self.0.reason_chars()).len() <= 509 }
@@ -73,6 +79,12 @@ impl UserHash {
 //@end
 }
 impl EncodeAttributeValue for UserHash {
+    open spec fn post_wire(&self, enc: Seq<u8>, val: Seq<u8>) -> Seq<u8> { val }
+    open spec fn post_ok(&self, enc: Seq<u8>, val: Seq<u8>) -> bool { true }
+    // the provided method of the trait (nothing to do after the length is known), as instantiated for this kind
+//@item stun_rs :: mod attributes > trait EncodeAttributeValue > fn post_encode
+//@tags C02 C14 C01
+//@end
     open spec fn wire(&self, enc: Seq<u8>) -> Seq<u8> { self.0@ }
     open spec fn encodable(&self, enc: Seq<u8>) -> bool { true }
 //@item stun_rs :: mod attributes > mod stun > mod user_hash > impl EncodeAttributeValue for UserHash > fn encode
@@ -161,6 +173,12 @@ impl UnknownAttributes {
 //@end
 }
 impl EncodeAttributeValue for UnknownAttributes {
+    open spec fn post_wire(&self, enc: Seq<u8>, val: Seq<u8>) -> Seq<u8> { val }
+    open spec fn post_ok(&self, enc: Seq<u8>, val: Seq<u8>) -> bool { true }
+    // the provided method of the trait (nothing to do after the length is known), as instantiated for this kind
+//@item stun_rs :: mod attributes > trait EncodeAttributeValue > fn post_encode
+//@tags C02 C14 C01
+//@end
     open spec fn wire(&self, enc: Seq<u8>) -> Seq<u8> { ua_wire(self.list()) }
     open spec fn encodable(&self, enc: Seq<u8>) -> bool { true }
 //@item stun_rs :: mod attributes > mod stun > mod unknown_attributes > impl EncodeAttributeValue for UnknownAttributes > fn encode
@@ -276,6 +294,12 @@ pub open spec fn pa_unwire(raw: Seq<u8>) -> Option<Algorithm> {
     } else { None }
 }
 impl EncodeAttributeValue for PasswordAlgorithm {
+    open spec fn post_wire(&self, enc: Seq<u8>, val: Seq<u8>) -> Seq<u8> { val }
+    open spec fn post_ok(&self, enc: Seq<u8>, val: Seq<u8>) -> bool { true }
+    // the provided method of the trait (nothing to do after the length is known), as instantiated for this kind
+//@item stun_rs :: mod attributes > trait EncodeAttributeValue > fn post_encode
+//@tags C02 C14 C01
+//@end
     open spec fn wire(&self, enc: Seq<u8>) -> Seq<u8> { pa_wire(self.0) }
     open spec fn encodable(&self, enc: Seq<u8>) -> bool { pa_plen(self.0) <= 0xFFFF }
 //@item stun_rs :: mod attributes > mod stun > mod password_algorithm > impl EncodeAttributeValue for PasswordAlgorithm > fn encode
@@ -443,6 +467,12 @@ pub proof fn lemma_pas_upto_mono(l: Seq<Algorithm>, k: int, n: int)
 }
 pub open spec fn pas_encodable(l: Seq<Algorithm>) -> bool { forall|k: int| 0 <= k < l.len() ==> pa_plen(#[trigger] l[k]) <= 0xFFFF }
 impl EncodeAttributeValue for PasswordAlgorithms {
+    open spec fn post_wire(&self, enc: Seq<u8>, val: Seq<u8>) -> Seq<u8> { val }
+    open spec fn post_ok(&self, enc: Seq<u8>, val: Seq<u8>) -> bool { true }
+    // the provided method of the trait (nothing to do after the length is known), as instantiated for this kind
+//@item stun_rs :: mod attributes > trait EncodeAttributeValue > fn post_encode
+//@tags C02 C14 C01
+//@end
     open spec fn wire(&self, enc: Seq<u8>) -> Seq<u8> { pas_wire_upto(pas_algs(*self), pas_algs(*self).len() as int) }
     open spec fn encodable(&self, enc: Seq<u8>) -> bool { pas_encodable(pas_algs(*self)) }
 //@item stun_rs :: mod attributes > mod stun > mod password_algorithms > impl EncodeAttributeValue for PasswordAlgorithms > fn encode
@@ -542,6 +572,12 @@ impl UserName {
 //@end
 }
 impl EncodeAttributeValue for UserName {
+    open spec fn post_wire(&self, enc: Seq<u8>, val: Seq<u8>) -> Seq<u8> { val }
+    open spec fn post_ok(&self, enc: Seq<u8>, val: Seq<u8>) -> bool { true }
+    // the provided method of the trait (nothing to do after the length is known), as instantiated for this kind
+//@item stun_rs :: mod attributes > trait EncodeAttributeValue > fn post_encode
+//@tags C02 C14 C01
+//@end
     open spec fn wire(&self, enc: Seq<u8>) -> Seq<u8> { vstd::utf8::encode_utf8(self.0@) }
     open spec fn encodable(&self, enc: Seq<u8>) -> bool { vstd::utf8::encode_utf8(self.0@).len() < 509 }
 //@item stun_rs :: mod attributes > mod stun > mod user_name > impl EncodeAttributeValue for UserName > fn encode
